@@ -46,6 +46,7 @@
 import GoblVerif.Proofs.CalcErrorMore
 import GoblVerif.Proofs.CalcErrorInc
 import GoblVerif.Proofs.CalcErrorGroups
+import GoblVerif.Proofs.CalcErrorTight
 import GoblVerif.Spec.C01
 import GoblVerif.Generated.CalcFacts
 import GoblVerif.Proofs.CalcError
@@ -1334,6 +1335,153 @@ example : DocTI (retOf incDoc) incDoc ∧ DocTI (retOf surDoc) surDoc ∧
       some [([⟨490, 2⟩], [some ⟨121, 2⟩])] :=
   ⟨(inDocI_sound incDoc (by decide)).tax, (inDocI_sound surDoc (by decide)).tax, by decide, by decide, by decide,
     by decide, by decide, by decide⟩
+
+/-! ## tighter weights: the actual percentages
+
+The weights of `calc_eq_spec` / `calc_eq_spec_included` bound every percentage by 100 %.  With the
+actual percentages (`Spec/C01.lean`, rational weights): a document discount / charge that is `p` % of
+the sum weighs `1 + |p|·sumW` (not `1 + sumW`), one that is a percentage of an explicit base weighs 1,
+a fixed amount 0 (`adjRowWQ`); a tax combo carries `|percentage| + |surcharge percentage|` of its
+row's error (`comboWQ`, not the number of combos), the included category `Σ |percentage|` (`kNQ`); an
+advance of `p` % weighs `1 + |p|·twtWQ`, a fixed advance 0 (`advRowWQ`).  The line weights `lineW` and
+the rounding points of the tax summary (`G`, `Gk`) are unchanged. -/
+
+/-- **calc_eq_spec_tight** — `calc_eq_spec_included` with the tight weights (same class `DocCI`,
+which contains `DocC`: `d.includes` may be `none`) -/
+theorem calc_eq_spec_tight (ret : String → Bool) (d : Doc) (out : Out) (t : Totals) (hd : DocCI ret d)
+    (hcalc : calculate exactOps d = .ok out) (ht : out.totals = some t) :
+    ∃ w : Totals, t = roundTotals exactOps d.c w ∧
+      (|w.sum.toRat - (exactQ d).sum| ≤ (sumW d.lines : ℚ) * halfUlp (d.c + 2) ∧
+       |optQ w.discount - (exactQ d).discount| ≤ adjWQ (sumW d.lines) d.discounts * halfUlp (d.c + 2) ∧
+       |optQ w.charge - (exactQ d).charge| ≤ adjWQ (sumW d.lines) d.charges * halfUlp (d.c + 2) ∧
+       |optQ w.taxIncluded - (exactQ d).taxIncluded| ≤ incWQ d (incGroupsT d.includes t) * halfUlp (d.c + 2) ∧
+       |w.total.toRat - (exactQ d).total| ≤ totalWQ d (incGroupsT d.includes t) * halfUlp (d.c + 2) ∧
+       |w.tax.toRat - (exactQ d).tax| ≤ taxWQ d (groupsT t) * halfUlp (d.c + 2) ∧
+       |w.totalWithTax.toRat - (exactQ d).totalWithTax| ≤
+         twtWQ d (groupsT t) (incGroupsT d.includes t) * halfUlp (d.c + 2) ∧
+       |w.payable.toRat - (exactQ d).payable| ≤
+         twtWQ d (groupsT t) (incGroupsT d.includes t) * halfUlp (d.c + 2) ∧
+       |optQ w.advances - (exactQ d).advances| ≤
+         advWQ d (groupsT t) (incGroupsT d.includes t) * halfUlp (d.c + 2) ∧
+       (∀ y, w.due = some y → |y.toRat - (exactQ d).due| ≤
+         dueWQ d (groupsT t) (incGroupsT d.includes t) * halfUlp (d.c + 2))) := by
+  obtain ⟨p, tx, hpre, htx, _, htr⟩ := calculate_unpack d out t hcalc ht
+  have hG : groupsT t = groupsOf tx.cats := by rw [htr]; exact groupsT_round d p tx
+  have hGk : incGroupsT d.includes t = incGroupsOf d.includes tx.cats := by rw [htr]; exact groupsT_round_inc d p tx
+  obtain ⟨w1, w2, w3, w4, w5, w6, w7, w8, w9, w10, _⟩ := working_spec_incQ d p tx hd hpre htx
+  refine ⟨rawTotals exactOps d p tx, htr, ?_⟩
+  rw [hG, hGk]
+  exact ⟨w1, w2, w3, w4, w5, w6, w7, w8, w9, w10⟩
+
+/-- **the explicit bound with the tight weights** — class `DocCI`: every presented total is within
+half a minor unit plus `dueWQ` half-units of the working precision of the exact rational value -/
+theorem tight_explicit_bound (ret : String → Bool) (d : Doc) (out : Out) (t : Totals) (hd : DocCI ret d)
+    (hcalc : calculate exactOps d = .ok out) (ht : out.totals = some t) :
+    let B := halfUlp d.c + dueWQ d (groupsT t) (incGroupsT d.includes t) * halfUlp (d.c + 2)
+    |t.sum.toRat - (exactQ d).sum| ≤ B ∧ |t.total.toRat - (exactQ d).total| ≤ B ∧
+    |t.tax.toRat - (exactQ d).tax| ≤ B ∧ |t.totalWithTax.toRat - (exactQ d).totalWithTax| ≤ B ∧
+    |t.payable.toRat - (exactQ d).payable| ≤ B ∧
+    (∀ x, t.taxIncluded = some x → |x.toRat - (exactQ d).taxIncluded| ≤ B) ∧
+    (∀ x, t.discount = some x → |x.toRat - (exactQ d).discount| ≤ B) ∧
+    (∀ x, t.charge = some x → |x.toRat - (exactQ d).charge| ≤ B) ∧
+    (∀ x, t.advances = some x → |x.toRat - (exactQ d).advances| ≤ B) ∧
+    (∀ x, t.due = some x → |x.toRat - (exactQ d).due| ≤ B) := by
+  intro B
+  obtain ⟨w, htr, b1, b2, b3, bi, b4, b5, b6, b7, b8, b9⟩ := calc_eq_spec_tight ret d out t hd hcalc ht
+  obtain ⟨m1, m2, m3, m4, m5, m6, m7, m8, m9⟩ := weightsQ_le d (groupsT t) (incGroupsT d.includes t)
+  set D := dueWQ d (groupsT t) (incGroupsT d.includes t)
+  have h0 := halfUlp_nonneg (d.c + 2)
+  have hs : ∀ (a : Amount) (q n : ℚ), n ≤ D → |a.toRat - q| ≤ n * halfUlp (d.c + 2) →
+      |(a.rescaleX d.c).toRat - q| ≤ B := by
+    intro a q n hle h
+    have h1 := rescaleX_err a d.c
+    have h2 := mul_le_mul_of_nonneg_right hle h0
+    have e : (a.rescaleX d.c).toRat - q = ((a.rescaleX d.c).toRat - a.toRat) + (a.toRat - q) := by ring
+    rw [e]
+    refine le_trans (abs_add_le _ _) ?_
+    show _ ≤ halfUlp d.c + D * halfUlp (d.c + 2)
+    linarith
+  have ho : ∀ (o : Option Amount) (q n : ℚ), n ≤ D → |optQ o - q| ≤ n * halfUlp (d.c + 2) →
+      ∀ x, o.map (exactOps.rescale · d.c) = some x → |x.toRat - q| ≤ B := by
+    intro o q n hle h x hx
+    simp only [Option.map_eq_some_iff] at hx
+    obtain ⟨y, hy, rfl⟩ := hx
+    rw [hy] at h
+    exact hs y q n hle h
+  rw [htr]
+  refine ⟨hs _ _ _ m1 b1, hs _ _ _ m5 b4, hs _ _ _ m6 b5, hs _ _ _ m7 b6, hs _ _ _ m7 b7,
+    ho _ _ _ m4 bi, ho _ _ _ m2 b2, ho _ _ _ m3 b3, ho _ _ _ m8 b8, ?_⟩
+  intro x hx
+  have hx' : w.due.map (exactOps.rescale · d.c) = some x := hx
+  simp only [Option.map_eq_some_iff] at hx'
+  obtain ⟨y, hy, rfl⟩ := hx'
+  exact hs y _ _ (le_refl _) (b9 y hy)
+
+/-- the same with the hypotheses the model driver evaluates (`inDocI`, `docWeightQ`): the bound the
+check holds the real library's output to, for every generated document of the class -/
+theorem decided_class_bound_tight (d : Doc) (out : Out) (t : Totals) (hcls : inDocI d = true)
+    (hcalc : calculate exactOps d = .ok out) (ht : out.totals = some t) :
+    let B := halfUlp d.c + docWeightQ d * halfUlp (d.c + 2)
+    |t.sum.toRat - (exactQ d).sum| ≤ B ∧ |t.total.toRat - (exactQ d).total| ≤ B ∧
+    |t.tax.toRat - (exactQ d).tax| ≤ B ∧ |t.totalWithTax.toRat - (exactQ d).totalWithTax| ≤ B ∧
+    |t.payable.toRat - (exactQ d).payable| ≤ B ∧
+    (∀ x, t.taxIncluded = some x → |x.toRat - (exactQ d).taxIncluded| ≤ B) ∧
+    (∀ x, t.discount = some x → |x.toRat - (exactQ d).discount| ≤ B) ∧
+    (∀ x, t.charge = some x → |x.toRat - (exactQ d).charge| ≤ B) ∧
+    (∀ x, t.advances = some x → |x.toRat - (exactQ d).advances| ≤ B) ∧
+    (∀ x, t.due = some x → |x.toRat - (exactQ d).due| ≤ B) := by
+  rw [docWeightQ_eq d out t hcalc ht]
+  exact tight_explicit_bound (retOf d) d out t (inDocI_sound d hcls) hcalc ht
+
+/-- **precise_error_lt_unit_tight** — class `DocCI`, tight weight of the amount due below 100:
+every presented total is less than one minor currency unit from the exact rational value -/
+theorem precise_error_lt_unit_tight (ret : String → Bool) (d : Doc) (out : Out) (t : Totals) (hd : DocCI ret d)
+    (hn : dueWQ d (groupsT t) (incGroupsT d.includes t) < 100)
+    (hcalc : calculate exactOps d = .ok out) (ht : out.totals = some t) :
+    let U := 1 / ((pow10 d.c : ℤ) : ℚ)
+    |t.sum.toRat - (exactQ d).sum| < U ∧ |t.total.toRat - (exactQ d).total| < U ∧
+    |t.tax.toRat - (exactQ d).tax| < U ∧ |t.totalWithTax.toRat - (exactQ d).totalWithTax| < U ∧
+    |t.payable.toRat - (exactQ d).payable| < U ∧
+    (∀ x, t.taxIncluded = some x → |x.toRat - (exactQ d).taxIncluded| < U) ∧
+    (∀ x, t.discount = some x → |x.toRat - (exactQ d).discount| < U) ∧
+    (∀ x, t.charge = some x → |x.toRat - (exactQ d).charge| < U) ∧
+    (∀ x, t.advances = some x → |x.toRat - (exactQ d).advances| < U) ∧
+    (∀ x, t.due = some x → |x.toRat - (exactQ d).due| < U) := by
+  intro U
+  have hb := tight_explicit_bound ret d out t hd hcalc ht
+  simp only at hb
+  have hp := p10q_pos d.c
+  have hp2 : ((pow10 (d.c + 2) : ℤ) : ℚ) = ((pow10 d.c : ℤ) : ℚ) * 100 := by
+    unfold pow10; push_cast; ring
+  have hu2 : halfUlp (d.c + 2) = 1 / (200 * ((pow10 d.c : ℤ) : ℚ)) := by
+    unfold halfUlp; rw [hp2]; ring
+  have hu : halfUlp d.c = 1 / (2 * ((pow10 d.c : ℤ) : ℚ)) := rfl
+  have hlt : halfUlp d.c + dueWQ d (groupsT t) (incGroupsT d.includes t) * halfUlp (d.c + 2) < U := by
+    have hpos200 : (0 : ℚ) < 1 / (200 * ((pow10 d.c : ℤ) : ℚ)) := by positivity
+    have h1 := mul_lt_mul_of_pos_right hn hpos200
+    rw [hu, hu2]
+    have : 1 / (2 * ((pow10 d.c : ℤ) : ℚ)) + 100 * (1 / (200 * ((pow10 d.c : ℤ) : ℚ))) = U := by
+      show _ = 1 / ((pow10 d.c : ℤ) : ℚ)
+      field_simp
+      ring
+    linarith
+  obtain ⟨a1, a2, a3, a4, a5, a6, a7, a8, a9, a10⟩ := hb
+  exact ⟨lt_of_le_of_lt a1 hlt, lt_of_le_of_lt a2 hlt, lt_of_le_of_lt a3 hlt, lt_of_le_of_lt a4 hlt,
+    lt_of_le_of_lt a5 hlt, fun x hx => lt_of_le_of_lt (a6 x hx) hlt, fun x hx => lt_of_le_of_lt (a7 x hx) hlt,
+    fun x hx => lt_of_le_of_lt (a8 x hx) hlt, fun x hx => lt_of_le_of_lt (a9 x hx) hlt,
+    fun x hx => lt_of_le_of_lt (a10 x hx) hlt⟩
+
+/-- non-vacuity of the tight theorems, and how much tighter: `incDoc` 20.266 instead of 97 (tax
+5.56 instead of 20, included tax 4.26 instead of 17), `payDoc` 19.1675 instead of 99, `adjDoc` 13.975
+instead of 49, `surDoc` 3.262 instead of 5 -/
+example : inDocI incDoc = true ∧ inDocI payDoc = true ∧ inDocI adjDoc = true ∧ inDocI surDoc = true ∧
+    docWeightQ incDoc = 10133 / 500 ∧ docWeightI incDoc = 97 ∧ docWeightQ payDoc = 7667 / 400 ∧
+    docWeight payDoc = 99 ∧ docWeightQ adjDoc = 559 / 40 ∧ docWeightQ surDoc = 1631 / 500 ∧
+    ((calculate exactOps incDoc).toOption.bind (·.totals)).map
+      (fun t => (taxWQ incDoc (groupsT t), incWQ incDoc (incGroupsT incDoc.includes t))) =
+      some (139 / 25, 213 / 50) := by
+  refine ⟨by decide, by decide, by decide, by decide, by decide +kernel, by decide, by decide +kernel, by decide,
+    by decide +kernel, by decide +kernel, by decide +kernel⟩
 
 /-! ## pinned source shapes (regenerated facts; tools/pin_calc_expect.py) -/
 
